@@ -24,7 +24,11 @@ open points are
   symlink  directories reached through a symbolic link *below* the literal
            prefix are not enumerated at all (the caller counts such results as
            unasserted); the link itself is an entry (a directory if it points
-           to one).
+           to one).  A symbolic link *inside* the literal prefix is plain path
+           resolution ("every pattern whose literal prefix exists"): what lies
+           below it is required - unless another pattern of the same call has
+           its literal prefix strictly above that link, because then the link
+           is also a directory found below a base (upper bound only).
 
 Fixed readings (DESIGN.md C11 "S"): an explicit `type` also governs the
 extra/exclude globs; without it a simple glob selects directories iff it ends
@@ -313,9 +317,15 @@ def select(call, find_exclude, rootdirs):
                                         'islink': islink, 'root': p.root,
                                         'pat': {}})
             tok = _type_ok(p.type, isdir)
-            # reached through a symlinked directory (only possible inside the
-            # literal prefix: walk_all does not descend links): upper bound only
-            via_link = any(base_links) if rel else any(base_links[:-1])
+            # reached through symlinked directories of the literal prefix
+            # (walk_all does not descend links, so only there): required,
+            # unless another pattern's prefix lies strictly above such a link
+            links = base_links if rel else base_links[:-1]
+            via_link = any(
+                is_link and any(q is not p and q.root == p.root and
+                                len(q.base) <= i and
+                                p.base[:len(q.base)] == q.base for q in pats)
+                for i, is_link in enumerate(links))
             rec['via_link'] = rec.get('via_link', False) or via_link
             rec['pat'][pi] = {
                 'inc_lo': (tok and match_path(p.glob, rel, True) and
@@ -325,6 +335,7 @@ def select(call, find_exclude, rootdirs):
                 'sib_lo': bool(rel) and match_path(p.glob, rel[:-1] + [ANY],
                                                    True),
                 'baselen': len(p.base),
+                'base_link': any(links),
             }
 
     def excluded(comps, isdir, strict):
